@@ -915,6 +915,11 @@ func (val *Node) AsSliceBytes(ctx *Context) ([]byte, error) {
 		var gerr error
 		var ok bool
 		for i := 0; i < size; i++ {
+			/* null leaves the element as it is, like encoding/json */
+			if elem.IsNull() {
+				elem = NewNode(PtrOffset(elem.cptr, 1))
+				continue
+			}
 			a[i], ok = elem.AsByte(ctx)
 			if !ok && gerr == nil {
 				gerr = newUnmatched(val.Position(), rt.BytesType)
